@@ -45,8 +45,8 @@ theorem C20_skeleton_tie : skeleton =
         "try{", "call:evaluate", "}", "handler:AppStateError{", "raise", "}",
         "handler:*{", "assign:CANCELLED", "call:clean_up", "raise", "}", "else{", "assign:JOINED", "}", "call:clean_up"]),
      ("Application", "run", []),
-     ("Application", "start", ["try{", "call:run", "}", "handler:*{", "assign:CANCELLED", "call:clean_up", "raise", "}",
-        "assign:RUNNING"]),
+     ("Application", "start", ["try{", "call:run", "}", "handler:*{", "assign:CANCELLED",
+        "try{", "call:clean_up", "}", "handler:Exception{", "}", "raise", "}", "assign:RUNNING"]),
      ("ClustalOmegaApp", "clean_up", ["super:clean_up", "call:cleanup_tempfile", "call:cleanup_tempfile",
         "call:cleanup_tempfile", "call:cleanup_tempfile"]),
      ("ClustalOmegaApp", "evaluate", ["super:evaluate"]),
@@ -132,7 +132,7 @@ theorem C20_results_equal_output (w : Wrapper) (t : Tool) (n : Nat) (k : String)
     let s := run (init w t n k) cs
     (s.state ≠ .joined → s.result = none) ∧
     (s.state = .joined → w.isMsa = true →
-      ∃ r, s.result = some r ∧ parseOutput (toolRows t n) (t = .garbageRagged) n = .ok r) := by
+      ∃ r, s.result = some r ∧ parseOutput (toolRows t n) (badLengths t) n = .ok r) := by
   intro s
   have hi : Inv s := run_inv _ cs (inv_init w t n k)
   have hfr : s.w = w ∧ s.tool = t ∧ s.n = n := run_frame _ cs
@@ -205,6 +205,11 @@ example :
 
 /-- Unparsable output. -/
 example : (step (run (init .mafft .garbageMissing 3 "protein") [.start]) (.join false)).2 = .err errEval := by decide
+
+/-- Output with the right headers and equal row lengths but a wrong symbol count is rejected, and cleaned up after. -/
+example :
+    let s := run (init .muscle5 .garbageLength 3 "protein") [.start, .join false]
+    s.state = .cancelled ∧ s.result = none ∧ s.cleanups = 1 ∧ s.files = 0 := by decide
 
 /-- Missing binary with a changed exec dir (the former cwd leak): CANCELLED, cleaned, cwd restored. -/
 example :
